@@ -124,6 +124,25 @@ Theorem C02_ascii_base256_conformant : forall sorter data symbols cw s,
 Proof. intros so d sy cw s HS OK H. exact (proj1 (ascii_base256_roundtrip so d sy cw s HS OK H)). Qed.
 Print Assumptions C02_ascii_base256_conformant.
 
+(* the same behind a Macro 05 / 06 codeword or an FNC1 start (one header codeword, then the body under any plan over the two modes) *)
+Theorem C02_macro_ab_conformant : forall sorter data symbols modes body m head cw s,
+  (forall k l l', sorter symbols k l = Ok l' -> incl l' l) ->
+  (forall mo, enabled modes mo = true -> mo = Ascii \/ mo = Base256) -> bytes_ok body = true ->
+  (m = 236 /\ head = MACRO05_HEAD) \/ (m = 237 /\ head = MACRO06_HEAD) -> data = head ++ body ++ MACRO_TRAIL ->
+  encode_data_internal (optimize_fn sorter) data symbols None modes true false = Ok (cw, s) ->
+  exists script npad, script_ok script npad = true /\ cw = stream_with m script npad /\ meaning script = body /\ Forall ab_seg script.
+Proof. intros so d sy mo b m h cw s HS HM OK HH HD H. exact (proj1 (macro_ab_roundtrip so d sy mo b m h cw s HS HM OK HH HD H)). Qed.
+Print Assumptions C02_macro_ab_conformant.
+
+Theorem C02_fnc1_ab_conformant : forall sorter data symbols modes use_macros cw s,
+  (forall k l l', sorter symbols k l = Ok l' -> incl l' l) ->
+  (forall mo, enabled modes mo = true -> mo = Ascii \/ mo = Base256) -> bytes_ok data = true ->
+  encode_data_internal (optimize_fn sorter) data symbols None modes use_macros true = Ok (cw, s) ->
+  exists script npad, script_ok script npad = true /\ cw = stream_with 232 script npad /\ meaning script = data /\ Forall ab_seg script.
+Proof. intros so d sy mo um cw s HS HM OK H. exact (proj1 (fnc1_ab_roundtrip so d sy mo um cw s HS HM OK H)). Qed.
+Print Assumptions C02_fnc1_ab_conformant.
+
+
 (* (vi) for the other plans conformance is decided per output by a certificate whose check is proved sound here: the
    check run (extracted) on every stream the implementation produces accepts only if the stream is the rendering of a
    legal script of Spec/Stream16022.v spelling exactly the input bytes -- and then the model of the decoder returns
